@@ -22,8 +22,10 @@ META = dict(
          'database rows, that only atoms it satisfied naturally are unset - '
          'forced ones and atoms fed by other tasks stay - that a child is '
          'removed exactly when it has begun nothing, belongs only to the '
-         'removed flows and is left with no satisfied prerequisite, and that '
-         'an unrelated task is untouched.',
+         'removed flows and is left with no satisfied prerequisite, that the '
+         'database history of a removed child is erased for exactly those '
+         'flows (and of no other task at all), and that an unrelated task is '
+         'untouched.',
     note='fixture "basic": removed a@2; children c@2 (a@2) and b@3 '
          '(a:x@3 | a@2); bystander b@2 (a:x@2 | a@1, only its a@1 atom '
          'satisfied); flows subsets of {1,2}; the DB side is the call '
@@ -135,6 +137,15 @@ def _run(parent_in, pf, rm, c_sat, c_run, cf, b_a2, b_x3, bf):
                      and not child.state.prerequisites_all_satisfied())
         gone = not any(t is child for t in pool.get_tasks())
         if gone != should_go:
+            return False
+        # database history: a removed child is erased from exactly the
+        # flows its pooled instance was removed from - never from others
+        crows = [r for r in removed_rows
+                 if (r[0], r[1]) == (str(child.point), child.tdef.name)]
+        if gone:
+            if crows != [(str(child.point), child.tdef.name, set(cm))]:
+                return False
+        elif crows:
             return False
         if unset and not running and f0 == cm and not gone and (
                 not child.state.prerequisites_all_satisfied()
